@@ -160,84 +160,4 @@ fn x17_not_in_block_step() {
 }
 
 
-macro_rules! leave_block_step {
-	($name:ident, $size:expr, $eat:expr) => {
-		#[kani::proof]
-		#[kani::unwind(5)]
-		#[kani::stub(alloc::fmt::format, stub_format)]
-		#[kani::stub(flate2::Decompress::decompress, verif_unreachable_inflate)]
-		#[kani::stub(flate2::Decompress::new, verif_unreachable_inflate_new)]
-		fn $name() {
-			use crate::de::read::take::Take;
-			use std::io::BufRead;
-			let buf: [u8; $size + 16] = kani::any();
-			let sync: [u8; 16] = kani::any();
-			let mut r = reader_over!(&buf[..], sync);
-			let mut sub = match de::read::SliceRead::new(&buf[..]).take($size) {
-				Ok(s) => s,
-				Err(e) => {
-					std::mem::forget(e);
-					return;
-				}
-			};
-			sub.consume($eat);
-			let old = std::mem::replace(
-				&mut r.reader_state,
-				ReaderState::InBlock {
-					codec_data: DecompressionState::Null {
-						deserializer_state: de::DeserializerState::with_config(
-							sub,
-							de::DeserializerConfig::from_schema_node(NodeRef::from_static(&N_LONG)),
-						),
-						decompression_buffer: Vec::new(),
-					},
-					n_objects_in_block: 0,
-				},
-			);
-			std::mem::forget(old);
-			let a = step(&mut r);
-			let trailing_ok = buf[$size..$size + 16] == sync[..];
-			kani::cover!(trailing_ok, "COV trailing marker equals the header's");
-			kani::cover!(!trailing_ok, "COV trailing marker differs");
-			if $eat < $size {
-				assert!(a == Step::Error, "OBL C17.corruption.data_left_in_block_is_an_error");
-			} else if !trailing_ok {
-				assert!(a == Step::Error, "OBL C17.corruption.sync_marker_mismatch_is_an_error");
-			} else {
-				assert!(a == Step::End, "OBL C17.block_end.matching_marker_then_exhausted_input_is_end_of_stream");
-				assert!(!r.pretend_eof_because_yielded_unrecoverable_error, "OBL C17.block_end.not_an_error");
-			}
-			if a == Step::Error {
-				assert!(r.pretend_eof_because_yielded_unrecoverable_error, "OBL C17.framing_error.latches_end_of_stream");
-			}
-			std::mem::forget(r);
-		}
-	};
-}
 
-//@ harness: x17_leave_block_step_s0
-//@   props: XDEV
-//@   tier: quick
-//@   kind: complete
-//@   fn: leave
-//@   domain: size 0
-//@   post: p
-leave_block_step!(x17_leave_block_step_s0, 0, 0);
-
-//@ harness: x17_leave_block_step_s1_e1
-//@   props: XDEV
-//@   tier: quick
-//@   kind: complete
-//@   fn: leave
-//@   domain: size 1 eaten 1
-//@   post: p
-leave_block_step!(x17_leave_block_step_s1_e1, 1, 1);
-
-//@ harness: x17_leave_block_step_s1_e0
-//@   props: XDEV
-//@   tier: quick
-//@   kind: complete
-//@   fn: leave
-//@   domain: size 1 eaten 0
-//@   post: p
-leave_block_step!(x17_leave_block_step_s1_e0, 1, 0);
